@@ -44,7 +44,7 @@ ENGINES["treesim"] = {
 }
 
 ENGINES["aclsim"] = {
-    "serves": ["C03", "C04"],
+    "serves": ["C03", "C04", "C05"],
     "kind": "single-goroutine event loop: actors with stale real ACL views build records (real builder or, byzantine, raw protobuf) and submit them to a simulated consensus node (real fully validating AclList + acceptor signature); observers follow the chain through a faulty network",
     "real_vs_stub": {"real": ["acl/list (record builder, AclState, content validator, keep-identity partial decoder, in-memory and any-store storage)", "recordverifier (ValidateFull and acceptor verifier)",
                               "util/crypto (Ed25519, X25519 sealed boxes, AES)", "consensusproto / aclrecordproto codecs"],
@@ -117,6 +117,22 @@ PROPS = {
         "level_text": "Seeded exploration of reachable ACL states through interleavings of honest (stale-view) and byzantine submissions; every accepted record is judged by delta invariants that do not use validator.go.",
         "level_note": "real ACL list/state/validator/builder; consensus ordering is a harness stub around a real validating list",
         "expected_probes": [],
+    },
+    "C05": {
+        "engine": "aclsim",
+        "level": "exploration",
+        "budget": {"quick": 60, "thorough": 900},
+        "rule": "one run = an honest chain in a shareable space (5-8 accounts, owner bootstrap, 10-60 events: request+approve, open-invite join, direct add, remove with rotation, leave request, invite revoke alone or in a batch with rotation/removal, invite change, stand-alone rotation, permission changes, re-add, ownership transfer; actors on stale views) interleaved with encrypted AddContent on one object tree by current writers. "
+                "After every accepted record every account rebuilds its own view (own keys only, full validation) and the oracles run: every account holding a permission derives every key generation (byte-equal across members) and has a current read key; an account holding none derives no generation introduced after it last held one; "
+                "for rotations in simple records the new key is encrypted to exactly the accounts keeping access and exactly the open invites staying live, and no revoked invite key opens any entry. Tree: stored/transmitted change bytes never contain the plaintext marker, the change names the current key generation and decrypts under the per-tree key derived from it, "
+                "every current member reads every change back as the original through IterateRoot, an account without the key never sees plaintext of later generations, and building an encrypted change with a nil key returns ErrMissingEncryptKey. evaluations = per-account derivation checks.",
+        "assumptions": COMMON_ASSUMPTIONS + ["honest managers (a byzantine manager can always write garbage ciphertext; that is C04/C11 territory)",
+                                             "content keys are derived per tree from the read key (crypto.AnysyncTreePath), as documented in the code",
+                                             "symbolic replay: builder output is not byte-deterministic across executions of a seed"],
+        "technique": "deterministic simulation: seeded multi-party membership histories (stale views, every join/leave route) interleaved with encrypted tree edits; per-account key-derivation oracles from the raw log after every accepted record",
+        "level_text": "Seeded exploration of membership histories; after every accepted record each account's private view is rebuilt from the raw log with its own keys and judged (members derive all generations, non-members none of the later ones, revoked invites open nothing); encrypted tree content is checked for ciphertext-only storage and read-back by every member.",
+        "level_note": "real ACL builder/state/validator, real object tree with encryption; consensus ordering simulated",
+        "expected_probes": ["rotation-judged", "member-read-back"],
     },
     "C06": {
         "engine": "treesim",
